@@ -176,7 +176,7 @@ def collect_patterns():
     return named, by_key
 
 
-KNOWN_FLAGS = re.I | re.U | re.S
+KNOWN_FLAGS = re.I | re.U | re.S | re.A
 
 
 def gen_patterns():
@@ -203,7 +203,7 @@ def gen_patterns():
         out.append("Definition %s : re := %s." % (name, body))
         out.append(
             "Definition %s_f : rflags := {| icase := %s; uni := %s; dotall := %s |}."
-            % (name, "true" if icase else "false", "false" if isbytes else "true", "true" if flags & re.S else "false")
+            % (name, "true" if icase else "false", "false" if (isbytes or flags & re.A) else "true", "true" if flags & re.S else "false")
         )
         out.append("Definition %s_g : nat := %d." % (name, ngroups))
         out.append("")
